@@ -7,7 +7,7 @@ TECHNIQUE = 'variant↔field agreement over enum-arm regions, access tables, int
 EXPLANATION = ('Decides on the MIR of the current tree: in every match on the consumer kind each arm touches only the offset map/path of that kind; '
                'functions outside such a match touch exactly the maps listed for them (group deletion: group map only; purge: both); a store reaches memory '
                'or disk only under offset <= current_offset; in-memory updates are paired with the on-disk save/delete; auto-commit stores the offset of the last '
-               'returned message for the same consumer and partition; load restores both kinds. Not decided: isolation/exactness over all interleavings, crash durability.')
+               'returned message for the same consumer and partition; load restores both kinds. Also: the durability codec of an offset file (8 little-endian bytes under <kind dir>/<consumer id>) and its loader agree; store/get/delete of a group offset without an explicit partition address the member\'s current partition, only poll advances the rotation. Not decided: isolation/exactness over all interleavings, crash durability.')
 ASSUMPTIONS = ['DashMap operations are atomic per key', 'rustc MIR faithfully represents control flow']
 
 P = 'server::streaming::partitions::partition::Partition'
